@@ -540,10 +540,9 @@ def check_map_value_contract(prog, run, rule_id):
             return None
 
         def bev(test, truth, else_names=else_names):
-            for n in ast.walk(test):
-                if isinstance(n, ast.Call) and isinstance(n.func, ast.Name) and n.func.id == "isinstance" and len(n.args) == 2 \
-                        and _is_else_type(n.args[1], else_names):
-                    return "match" if truth else "nomatch"
+            for n, pos in shapes.signed_subterms(test, lambda n: isinstance(n, ast.Call) and isinstance(n.func, ast.Name) and n.func.id == "isinstance"
+                                                 and len(n.args) == 2 and _is_else_type(n.args[1], else_names)):
+                return "match" if truth == pos else "nomatch"
             return None
 
         has_then = any(ev(n) == "then" for n in own_nodes(f.node))
